@@ -262,6 +262,62 @@ def run_driver(drv, behaviours, workdir):
     return out, None
 
 
+def validate_capped(behaviours, module, cfg, workdir, chunk_lines, cap=20, timeout=900):
+    """tracecheck.validate with a bound on the work after failures (same scheme as checks/c17.py): a failing chunk is
+    continued behind its first rejected behaviour as ONE new chunk (not one JVM per behaviour), and the search stops once
+    `cap` behaviours have been rejected -- the verdict is a violation by then; behaviours not looked at are reported as
+    unchecked and not counted as validated.  On a tree where everything is accepted this is exactly tracecheck.validate."""
+    import concurrent.futures as cf
+    chunks, cur, curlen = [], [], 0
+    for bi, b in enumerate(behaviours):
+        if cur and curlen + len(b) > chunk_lines:
+            chunks.append(cur); cur = []; curlen = 0
+        cur.append(bi); curlen += len(b)
+    if cur:
+        chunks.append(cur)
+    nchunks = len(chunks)
+    failures, broken, tot_d, tot_g, rnd, unchecked = [], [], 0, 0, 0, 0
+    while chunks:
+        rnd += 1
+        tasks = []
+        for ci, ch in enumerate(chunks):
+            pth = os.path.join(workdir, "vc_%d_%05d.ndjson" % (rnd, ci))
+            n = 0
+            with open(pth, "w") as f:
+                for bi in ch:
+                    for ln in behaviours[bi]:
+                        f.write(ln if ln.endswith("\n") else ln + "\n"); n += 1
+            tasks.append((module, cfg, pth, n, timeout, False))
+        with cf.ThreadPoolExecutor(max_workers=NPROC) as ex:
+            res = list(ex.map(tracecheck._run_chunk, tasks))
+        nxt = []
+        for ch, r in zip(chunks, res):
+            tot_d += r["distinct"]; tot_g += r["generated"]
+            if r["accepted"]:
+                continue
+            if r["error"] and r["violated"] is None:
+                broken.append(r); continue
+            m = r["matched"] if r["matched"] is not None else 0
+            if r["violated"] and m > 0:
+                m -= 1      # an invariant failed in the state reached by line m-1: that line is the offending one
+            pos = 0; hit = None
+            for bi in ch:
+                if m < pos + len(behaviours[bi]):
+                    hit = bi; break
+                pos += len(behaviours[bi])
+            if hit is None:
+                hit = ch[-1]
+            failures.append(dict(behaviour=hit))
+            rest = ch[ch.index(hit) + 1:]
+            if rest:
+                nxt.append(rest)
+        if len(failures) >= cap:
+            unchecked = sum(len(c) for c in nxt)
+            break
+        chunks = nxt
+    return dict(chunks=nchunks, failures=failures, broken=broken, distinct=tot_d, generated=tot_g, unchecked=unchecked)
+
+
 def nontrivial(trace_lines):
     """merge (insert that reduced the extent count), split (remove that increased it), cursor-hit query."""
     merge = split = hit = False
@@ -338,8 +394,8 @@ def run(tier):
         for i, (ops, tl) in enumerate(zip(behaviours, tb)):
             if len(ops) != len(tl):
                 die_broken("instrumentation incomplete: behaviour %d logged %d of %d lines" % (i, len(tl), len(ops)))
-        res = tracecheck.validate(tb, os.path.join(SPEC, "Trace_BitmapRb.tla"), os.path.join(SPEC, "Trace_BitmapRb.cfg"), work,
-                                  chunk_lines=3000 if tier == "quick" else 12000)
+        res = validate_capped(tb, os.path.join(SPEC, "Trace_BitmapRb.tla"), os.path.join(SPEC, "Trace_BitmapRb.cfg"), work,
+                              chunk_lines=3000 if tier == "quick" else 12000)
         if res["broken"]:
             die_broken("TLC failed on a trace chunk: %s\n%s" % (res["broken"][0]["error"], res["broken"][0]["out_tail"][-1500:]))
         ev.cov["states"] += res["distinct"]; ev.cov["transitions"] += res["generated"]
@@ -358,7 +414,9 @@ def run(tier):
             what = ("invariant %s violated" % inv) if inv else "trace rejected"
             vd.violation("%s@%s" % (what, opname), "%s at operation %d (%s) of behaviour %d: %s" % (what, k, behaviours[bi][k] if k < len(behaviours[bi]) else "", bi, line[:300]),
                          {"ops": behaviours[bi], "trace": tb[bi], "first_unmatched_line": k, "tlc_tail": tail[-1500:]})
-        ev.cov["traces_validated_against_impl"] = len(tb) - nfail
+        ev.cov["traces_validated_against_impl"] = len(tb) - nfail - res["unchecked"]
+        if res["unchecked"]:
+            ev.cov["behaviours_not_looked_at_after_%d_rejections" % len(res["failures"])] = res["unchecked"]
         ev.cov["evaluations"] = len(tb)
         for ops, tl in zip(behaviours, tb):
             if nontrivial(tl[1:]):
